@@ -33,6 +33,10 @@ CHECKS = {
    technique="TLC model checking of spec/ObjStm.tla (header offsets, member slicing, top-level parse of a slice, indirect /Length; TwinEqual, SliceExact) + replay of every storage configuration as a file with twin objects",
    text="TLC enumerates every storage configuration within the bound and checks that the reader's slice is exactly the member and that the compressed twin equals the direct twin; three deviations refuted; each configuration is written as a real file (object stream with optional filters, header separator variants, trailing white-space) and resolved through the library, values compared structurally with the directly stored twin, stream data compared for direct/indirect/compressed /Length.",
    note="Bounded containers and one representative text per value kind; trusted: TLC, mkpdf."),
+ "C17": dict(level="model_checking", design="5/C17", engine="A:prefix",
+   technique="TLC model checking of spec/FileLayout.tla (every consumer of a file offset as its own action, header position h; SameAsUnprefixed; one adequacy witness per consumer) + differential replay of generated and corpus files behind junk prefixes",
+   text="The spec states where each of the five offset consumers (startxref, /Prev, xref entries, stream data ranges, scan range) must arrive for every header position and TLC refutes each 'forgets the header' deviation separately (adequacy of the file family); the replay compares complete observations (all objects, stream data digests, pages, trailer, version, scan items) of every generated kind and every corpus file with and without a junk prefix.",
+   note="The model is small (layout arithmetic); assurance comes from the exhaustive sweep of header positions in the thorough tier and the per-consumer adequacy witnesses. Trusted: mkpdf, the snapshot projection."),
 }
 
 def main():
